@@ -1,0 +1,18 @@
+//go:build verif
+
+package rhp
+
+import "go.sia.tech/core/types"
+
+// This file exists only under the "verif" build tag. It exposes the unexported
+// codec methods of RPC objects to the verification harness in /verif. It adds
+// no behaviour: every function forwards to the original.
+
+// VerifMaxLen forwards to o.maxLen.
+func VerifMaxLen(o Object) int { return o.maxLen() }
+
+// VerifEncode forwards to o.encodeTo.
+func VerifEncode(o Object, e *types.Encoder) { o.encodeTo(e) }
+
+// VerifDecode forwards to o.decodeFrom.
+func VerifDecode(o Object, d *types.Decoder) { o.decodeFrom(d) }
